@@ -19,13 +19,21 @@ Get(sys, n) == sys.classes[CHOOSE i \in DOMAIN sys.classes : sys.classes[i].name
 HasStates(sys) == \E i \in DOMAIN sys.classes : sys.classes[i].role = "state"
 
 \* ---------------------------------------------------------------- values
+\* External variables (C20): sys.marks lists the variables handed to Analyser::addExternalVariable; the value of a marked class is
+\* whatever the callback returns - ExtVal, expressed in the units of the class's home component (u lives in A) - and differs
+\* between the two steps of the run (sys.step) so that everything depending on it has to be computed again.
+IsExt(sys, n) == "marks" \in DOMAIN sys /\ \E i \in DOMAIN sys.marks : sys.marks[i].name = n
+ExtBaseOf == [x1 |-> 107, x2 |-> 114, x3 |-> 121, u |-> 128]
+ExtVal(sys, n) == I(ExtBaseOf[n] + 1000 * sys.step)
 RECURSIVE Base(_, _, _)
 Seen(sys, n, comp, depth) ==            \* value of class n expressed in the units of component comp
     IF n = "t" THEN I(0)
+    ELSE IF n = "u" THEN QMul(ExtVal(sys, n), Pow10(0 - LogOf(comp)))
     ELSE LET c == Get(sys, n) IN QMul(Base(sys, n, depth), Pow10(LogOf(c.home) - LogOf(comp)))
 Base(sys, n, depth) ==                   \* value in the units of the class's home component
     LET c == Get(sys, n) IN
     IF depth = 0 THEN Undef
+    ELSE IF IsExt(sys, n) THEN ExtVal(sys, n)
     ELSE CASE c.role \in {"const", "state"} -> I(c.init)
            [] c.role \in {"cc", "alg"} -> LET RECURSIVE Sum(_) Sum(i) == IF i > Len(c.deps) THEN I(c.k) ELSE QAdd(Seen(sys, c.deps[i], c.home, depth - 1), Sum(i + 1)) IN Sum(1)
            [] c.role = "nla" -> I(c.init)        \* for NLA unknowns init holds the known solution
@@ -46,8 +54,7 @@ VarType(c) == CASE c.role = "const" -> "constant" [] c.role = "cc" -> "computed_
 EqTypes(c) == CASE c.role = "cc" -> {"variable_based_constant", "true_constant"} [] c.role = "state" -> {"ode"} [] c.role = "alg" -> {"algebraic"} [] c.role = "nla" -> {"nla"} [] OTHER -> {}
 ErrTypes == {"invalid", "underconstrained", "overconstrained", "unsuitably_constrained"}
 \* components in which a class has a member variable: its home and every component of a class that reads it
-UsedIn(sys, n) == {Get(sys, n).home} \cup {sys.classes[i].home : i \in {k \in DOMAIN sys.classes : \E j \in DOMAIN sys.classes[k].deps : sys.classes[k].deps[j] = n}}
-                  \cup (IF n = "t" THEN {"A"} ELSE {})
+UsedIn(sys, n) == (IF n = "t" THEN {"A"} ELSE {Get(sys, n).home}) \cup {sys.classes[i].home : i \in {k \in DOMAIN sys.classes : \E j \in DOMAIN sys.classes[k].deps : sys.classes[k].deps[j] = n}}
 
 \* ---------------------------------------------------------------- well-posed systems of the bounded scope
 NonConst(sys, n) == n = "t" \/ Get(sys, n).role \in {"state", "alg"}
